@@ -64,7 +64,7 @@ def make_spec(g, allow=()):
     tests = []
     for n in names:
         calls = []
-        for _ in range(r.choice([1, 1, 2, 3, 11 if 'many' in allow else 2])):
+        for _ in range(r.choice([1, 1, 2, 3, 11 if 'many' in allow else 2, 60 if 'big' in allow else 1])):
             cfgno = r.randint(1, nfiles)
             v = g.body((), ())
             # header-looking lines of tests that do not exist are harmless for Match* and are a
@@ -87,6 +87,18 @@ def make_spec(g, allow=()):
             cfgno = calls[0][0]
             nn = sum(1 for c, _ in calls if c == cfgno)
             stale.append((cfgno, n + b' - ' + str(r.choice([nn + 1, 2 * nn, nn + 5, 3 * nn])).encode(), g.body((), ())))
+    # a test addressing two files with different numbers of calls: ordinals addressed in one file are
+    # stale in the other (the per-file registries must not be merged)
+    if nfiles > 1:
+        for n, calls in tests:
+            per_cfg = {}
+            for c, _ in calls:
+                per_cfg[c] = per_cfg.get(c, 0) + 1
+            if len(per_cfg) > 1 and r.random() < 0.6:
+                hi = max(per_cfg, key=per_cfg.get)
+                lo = min(per_cfg, key=per_cfg.get)
+                if per_cfg[hi] > per_cfg[lo]:
+                    stale.append((lo, n + b' - ' + str(per_cfg[hi]).encode(), g.body((), ())))
     # a test whose snapshots moved to another file: its old slots, with the same ids, are stale in
     # the file it no longer addresses (state shared between files would resurrect or corrupt them)
     if nfiles > 1:
@@ -98,6 +110,19 @@ def make_spec(g, allow=()):
                     cfgno = r.choice(others)
                     for k in range(1, r.randint(1, 2) + 1):
                         stale.append((cfgno, n + b' - ' + str(k).encode(), g.body((), ())))
+    # a prepared file holds every id at most once
+    seen, uniq = set(), []
+    live = set()
+    for n, calls in tests:
+        k = {}
+        for c, _ in calls:
+            k[c] = k.get(c, 0) + 1
+            live.add((c, n + b' - ' + str(k[c]).encode()))
+    for cfgno, sid, body in stale:
+        if (cfgno, sid) not in seen and (cfgno, sid) not in live:
+            seen.add((cfgno, sid))
+            uniq.append((cfgno, sid, body))
+    stale = uniq
     return dict(cfgs=cfgs, nfiles=nfiles, tests=tests, stale=stale,
                 count=r.choice([1, 1, 2, 3]), shuffle=r.randrange(1 << 30),
                 stale_files=r.sample(['old_test.snap', 'x.snapshot', 'gone_1.snap', 'a.snap.json'], r.choice([0, 0, 1, 2])),
@@ -318,6 +343,18 @@ def o_rewrite_preserves(w):
             return 'order changed without sorting: %r -> %r' % ([e[0] for e in want], [e[0] for e in ea])
         if ea == eb and after[p] != before[p]:
             return 'file needing neither pruning nor sorting was rewritten'
+    l1 = Line(w.impl[w.meta['clean']])
+    for cfgno, entries in w.meta['per'].items():
+        p = file_of(w, cfgno, before)
+        if p is None or p not in after or not any(live for _, _, live in entries):
+            continue
+        eb = parse_snap(before[p])
+        ids = [e[0] for e in eb]
+        has_stale = any(not live for _, _, live in entries)
+        import functools
+        already = (not nat_total(ids)) or ids == sorted(ids, key=functools.cmp_to_key(lambda x, y: -1 if nat_less(x, y) else (1 if nat_less(y, x) else 0)))
+        if not (dele and has_stale) and (not srt or already) and nat_total(ids) and p in l1.writes:
+            return 'file %r needed neither pruning nor sorting but was written' % p
     l2 = Line(w.impl[w.meta['clean2']])
     if l2.writes or l2.removed or after2 != after:
         return 'a second Clean changed something: w=%r d=%r' % (l2.writes, l2.removed)
